@@ -6,6 +6,7 @@ CONSTANTS
   MaxSteps = 5
   MaxDamage = 2
   MaxStamp = 4
+  ScriptId = "none"
 INVARIANT NoOtherViolation
 VIEW View
 CHECK_DEADLOCK FALSE
